@@ -10,9 +10,11 @@ import (
 
 var verifAddrs = []string{"n0", "n1", "n2", "n3", "n4", "n5"}
 
+var verifProbeNum uint64 // ProbeNum of the harness rule (0: a half-open breaker rejects; > 0: it admits further probes)
+
 func verifLoadOutlierRule(p float64, active bool) bool {
 	r := &Rule{Rule: &circuitbreaker.Rule{Resource: "O", Strategy: circuitbreaker.ErrorCount, RetryTimeoutMs: 1000, MinRequestAmount: 0,
-		StatIntervalMs: 1000, Threshold: 1}, MaxEjectionPercent: p, EnableActiveRecovery: active, RecycleIntervalS: 60}
+		StatIntervalMs: 1000, Threshold: 1, ProbeNum: verifProbeNum}, MaxEjectionPercent: p, EnableActiveRecovery: active, RecycleIntervalS: 60}
 	_, err := LoadRules([]*Rule{r})
 	return err == nil
 }
@@ -25,6 +27,7 @@ func VerifC20Slot() {
 	p := rt.F64("p")
 	rt.Assume(p >= 0 && p <= 1)
 	active := rt.Bool("active")
+	verifProbeNum = []uint64{0, 2}[rt.Choice(2)]
 	if !verifLoadOutlierRule(p, active) {
 		rt.Assert(false, "LoadRules failed for a valid rule")
 		return
@@ -68,10 +71,10 @@ func VerifC20Slot() {
 	filters, halfs := res.FilterNodes(), res.HalfOpenNodes()
 	rejecting, probing := 0, 0
 	for i := 0; i < n; i++ {
-		if kinds[i] == 1 || kinds[i] == 3 { // open and not due, or half-open without configured probes
+		if kinds[i] == 1 || (kinds[i] == 3 && verifProbeNum == 0) { // open and not due, or half-open without configured probes
 			rejecting++
 		}
-		if kinds[i] == 2 {
+		if kinds[i] == 2 || (kinds[i] == 3 && verifProbeNum > 0) { // this request probes it: due, or half-open with probes configured
 			probing++
 		}
 	}
@@ -89,7 +92,7 @@ func VerifC20Slot() {
 				k = kinds[i]
 			}
 		}
-		rt.Assert(k == 1 || k == 3, "every node reported for filtering has a breaker that rejects this request")
+		rt.Assert(k == 1 || (k == 3 && verifProbeNum == 0), "every node reported for filtering has a breaker that rejects this request")
 	}
 	for i := 0; i < len(filters); i++ {
 		for j := i + 1; j < len(filters); j++ {
@@ -107,7 +110,7 @@ func VerifC20Slot() {
 					k = kinds[i]
 				}
 			}
-			rt.Assert(k == 2, "a node reported as half-open is one this request probes")
+			rt.Assert(k == 2 || (k == 3 && verifProbeNum > 0), "a node reported as half-open is one this request probes")
 		}
 	}
 }
